@@ -305,7 +305,12 @@ def run_value_fits_rest(run, P, fname='coap_opt_parse', out_field='length'):
             return L in aps and O in aps
         return False
     if not any(is_cmp((b.get('term') or {}).get('cond')) for b in f['blocks']):
-        raise AnalysisBroken('R-PARSE-GATE (value fits): %s() no longer compares the remaining length with the value length' % fname)
+        # the check itself is gone: that is the violation (the reject-condition table of R-PARSE-GATE reports it as well)
+        run.instance('R-PARSE-GATE', '%s: remaining length compared with ->%s after its last change' % (name, out_field))
+        run.oblige('R-PARSE-GATE', False, '%s:value-fits-rest' % name)
+        run.violation('R-PARSE-GATE', name, f['loc'], 'value-length-never-compared',
+                      '%s() never compares the remaining length with the decoded value length: a truncated option value is accepted and read behind the message' % fname)
+        return
     run.instance('R-PARSE-GATE', '%s: remaining length compared with ->%s after its last change' % (name, out_field))
     rep = set()
 
@@ -1153,3 +1158,167 @@ def run_short_unit_parsed(run, P, fname='coap_read_session', parse='coap_pdu_par
     run.instance('R-PARSE-GATE', '%s: lower bound of the byte count handed to %s() on the WS path' % (fname, parse))
     solve(f, Env(), on_event, None, None, None, key_fn=lambda e: (e.ts.get('ws'),), on_branch=on_branch, max_envs=768)
     run.require_count(judged[0] >= 1 or run.cfg != 'base' or run.fixture_mode, 'R-PARSE-GATE (short unit): no call of %s() on a path that knows the protocol to be WS / WSS' % parse)
+
+
+# ================================================================================================================ batch 14
+def run_token_skip_agrees(run, P, units=('coap_pdu.c',)):
+    """R-CODEC-TAB (13): where one basic block describes a string both by its length `X.length = E - K` and its start `X.s = &B[K']` (the
+    extended-token arms of the header parser: the K length-extension bytes sit in front of the token), K == K'.  A start one byte early
+    hands out the last extension byte as first token byte and drops the last token byte."""
+    run.rule('R-CODEC-TAB')
+    n = 0
+    for f in sorted(P.lib_funcs(), key=lambda f: f['name']):
+        if f['unit'] not in units:
+            continue
+        for b in f['blocks']:
+            lens, starts = {}, {}
+            for ev in b['elems']:
+                t = ev['e']
+                if not (t.get('k') == 'asg' and t.get('op') == '=' and ev.get('top')):
+                    continue
+                l, r = strip(t['l']), strip(t['r'])
+                if isinstance(l, dict) and l.get('k') == 'mem' and ap(l.get('b')):
+                    if l['f'] == 'length' and isinstance(r, dict) and r.get('k') == 'bin' and r.get('op') == '-' and const_int(r['r']) is not None:
+                        lens[ap(l['b'])] = (const_int(r['r']), ev)
+                    if l['f'] == 's' and isinstance(r, dict) and r.get('k') == 'un' and r.get('op') == '&':
+                        s_ = strip(r['e'])
+                        if isinstance(s_, dict) and s_.get('k') == 'sub' and const_int(s_['i']) is not None:
+                            starts[ap(l['b'])] = (const_int(s_['i']), ev)
+            for x in set(lens) & set(starts):
+                n += 1
+                run.instance('R-CODEC-TAB', '%s: %s skips %d bytes' % (f['name'], x, lens[x][0]))
+                ok = lens[x][0] == starts[x][0]
+                run.oblige('R-CODEC-TAB', ok, '%s:token-skip-agrees' % f['name'])
+                if not ok:
+                    run.violation('R-CODEC-TAB', f['name'], starts[x][1]['loc'], 'string-start-vs-length:%d:%d' % (starts[x][0], lens[x][0]),
+                                  'the string is said to be %d bytes shorter than the encoded field but to start %d bytes into it: the bytes reported are not the ones on the wire'
+                                  % (lens[x][0], starts[x][0]))
+    run.require_count(n >= (2 if run.cfg == 'base' else 1) or run.fixture_mode, 'R-CODEC-TAB (13): fewer than 2 (length, start) pairs found in the header parser')
+
+
+def run_min_update(run, P):
+    """R-TIMER-REC (a minimum is updated with what was compared): library-wide, a branch `A < T` (or `T > A`) whose true arm begins with
+    `T = C` assigns C == A - the running-minimum idiom of the timeout computations (`if (timeout == 0 || s_timeout < timeout) timeout =
+    s_timeout;`).  Assigning something else (the full idle period instead of the time left) RAISES the wait the library reports to its caller
+    above the earliest deadline whenever the branch is taken."""
+    from core.prog import key
+    run.rule('R-TIMER-REC')
+    n = 0
+    for f in sorted(P.lib_funcs(), key=lambda f: f['name']):
+        B = f['B']
+        for b in f['blocks']:
+            c = strip((b.get('term') or {}).get('cond'))
+            if not (isinstance(c, dict) and c.get('k') == 'bin' and c.get('op') in ('<', '>', '<=', '>=') and len(b['succ']) == 2 and b['succ'][0] is not None):
+                continue
+            a, t_ = (c['l'], c['r']) if c['op'] in ('<', '<=') else (c['r'], c['l'])
+            if not (ap(t_) and isinstance(strip(t_), dict) and strip(t_).get('k') == 'var' and key(a) and const_int(a) is None):
+                continue
+            tb = B[b['succ'][0]]
+            tops = [ev for ev in tb['elems'] if ev.get('top')]
+            if not tops:
+                continue
+            first = tops[0]['e']
+            if not (first.get('k') == 'asg' and first.get('op') == '=' and ap(first['l']) == ap(t_)):
+                continue
+            if const_int(first['r']) is not None:
+                continue
+            n += 1
+            ok = key(first['r']) == key(a)
+            run.instance('R-TIMER-REC', '%s: running minimum %s' % (f['name'], short(t_)))
+            run.oblige('R-TIMER-REC', ok, '%s:min-update' % f['name'])
+            if not ok:
+                run.violation('R-TIMER-REC', f['name'], tops[0]['loc'], 'min-update-assigns-other:%s' % short(t_),
+                              'under `%s` the running minimum %s is set to %s, not to the value it was compared with: whenever this arm is taken the result is not the '
+                              'minimum any more (a wait reported to the caller overshoots the earliest deadline)' % (short(c)[:50], short(t_), short(first['r'])[:40]))
+    run.require_count(n >= (3 if run.cfg == 'base' else 1) or run.fixture_mode, 'R-TIMER-REC (min update): fewer than 3 running-minimum updates found')
+
+
+def run_counter_decrement(run, P, field='con_active'):
+    """R-CNT-CON (l): `con_active--` is executed only where the counter is known non-zero (a test of the counter on the path).  The field is
+    unsigned and 8 bits wide: an unguarded decrement at 0 wraps to 255, every later Confirmable of the session is parked for ever and the
+    retransmission that hits it moves its own node into the delay queue - no response, no NACK."""
+    run.rule('R-CNT-CON')
+    n = 0
+    for f in sorted(P.lib_funcs(), key=lambda f: f['name']):
+        sites = [ev for b, ev in P.events(f) if ev['e'].get('k') == 'un' and ev['e'].get('op') == '--' and (ap(ev['e'].get('e')) or '').endswith('->' + field)]
+        if not sites:
+            continue
+        name = f['name']
+        aps_ = set(ap(ev['e']['e']) for ev in sites)
+        rep = set()
+
+        def on_event(ev, env, ctx):
+            for s_ in sites:
+                if ev is s_:
+                    a = ap(ev['e']['e'])
+                    lo, hi, ex = env.intf(a)
+                    ok = lo >= 1 or 0 in ex
+                    run.oblige('R-CNT-CON', ok, '%s:decrement-guarded' % name)
+                    if not ok and ev['loc'] not in rep:
+                        rep.add(ev['loc'])
+                        run.violation('R-CNT-CON', name, ev['loc'], 'decrement-may-wrap',
+                                      '%s-- on a path that does not know the counter non-zero: at 0 the 8-bit unsigned count wraps to 255 and every Confirmable of the session is '
+                                      'held back for ever' % short(ev['e']['e']), ctx.path())
+            return None
+        for ev in sites:
+            n += 1
+            run.instance('R-CNT-CON', '%s: guarded decrement at %s' % (name, ev['loc'].rsplit(':', 1)[-1]))
+        keys, R = relevance(f, lambda ev: any(ev is s_ for s_ in sites), aps_)
+        solve(f, Env(), on_event, None, keys, set(R) | aps_, key_fn=lambda e: tuple(sorted((a, e.intf(a)[0] >= 1 or 0 in e.intf(a)[2]) for a in aps_)), max_envs=512)
+    run.require_count(n >= (5 if run.cfg == 'base' else 1) or run.fixture_mode, 'R-CNT-CON (l): fewer than 5 decrements of con_active found')
+
+
+def run_copy_length_of_own_field(run, P):
+    """R-PAIR-ARGS (a field is copied with its own length): `memcpy(X->F, .., n)` into an array field F of a record that also has a field
+    `F_length` uses, when n is a `*_length` field of the same object, `X->F_length` - not the length of a sibling (`observe` copied with
+    `rtag_length`, still 0 at that point: the saved Observe value stays 00 and a deregistration is replayed as a registration)."""
+    run.rule('R-PAIR-ARGS')
+    n = 0
+    for f in sorted(P.lib_funcs(), key=lambda f: f['name']):
+        for b, ev in P.events(f):
+            t = ev['e']
+            if not (t.get('k') == 'call' and t.get('fn') in ('memcpy', 'memmove') and ev.get('top') and len(t.get('a') or ()) == 3):
+                continue
+            d = strip(t['a'][0])
+            if not (isinstance(d, dict) and d.get('k') == 'mem' and d.get('rec') and ap(d.get('b'))):
+                continue
+            own = d['f'] + '_length'
+            if not P.field(d['rec'], own):
+                continue
+            lens = [y for y in walk(t['a'][2]) if isinstance(y, dict) and y.get('k') == 'mem' and y.get('f', '').endswith('_length') and ap(y.get('b')) == ap(d['b'])]
+            if not lens:
+                continue
+            n += 1
+            run.instance('R-PAIR-ARGS', '%s: %s' % (f['name'], short(t)[:60]))
+            bad = [y for y in lens if y['f'] != own]
+            run.oblige('R-PAIR-ARGS', not bad, '%s:own-length:%s' % (f['name'], d['f']))
+            if bad:
+                run.violation('R-PAIR-ARGS', f['name'], ev['loc'], 'field-copied-with-sibling-length:%s:%s' % (d['f'], bad[0]['f']),
+                              '->%s is filled with ->%s bytes although the record has ->%s: the field is paired with the length of a sibling' % (d['f'], bad[0]['f'], own))
+    run.require_count(n >= (2 if run.cfg == 'base' else 1) or run.fixture_mode, 'R-PAIR-ARGS (own length): fewer than 2 copies into a field with its own length field found')
+
+
+def run_store_then_zeroed(run, P):
+    """R-LOST-STORE (stored, then zeroed): within one basic block, a field store `X->f = v` is not followed by `memset(X, 0, ..)` of the same
+    object: the value is wiped before anybody saw it (`association->is_observe = is_observe;` moved above the memset that initialises the
+    new association - every association is then created as a non-Observe one and is released after the first response)."""
+    run.rule('R-LOST-STORE')
+    n = 0
+    for f in sorted(P.lib_funcs(), key=lambda f: f['name']):
+        for b in f['blocks']:
+            stores = []
+            for ev in b['elems']:
+                t = ev['e']
+                if t.get('k') == 'asg' and t.get('op') == '=' and ev.get('top'):
+                    l = strip(t['l'])
+                    if isinstance(l, dict) and l.get('k') == 'mem' and l.get('arrow') and ap(l.get('b')) and const_int(t['r']) != 0 and not is_null_const(t['r']):
+                        stores.append((ap(l['b']), l['f'], ev))
+                if t.get('k') == 'call' and t.get('fn') == 'memset' and ev.get('top') and len(t.get('a') or ()) == 3 and const_int(t['a'][1]) == 0 and ap(t['a'][0]):
+                    n += 1
+                    for x, fld, sev in stores:
+                        if x == ap(t['a'][0]):
+                            run.oblige('R-LOST-STORE', False, '%s:%s:store-survives-memset' % (f['name'], fld))
+                            run.violation('R-LOST-STORE', f['name'], sev['loc'], 'store-zeroed-by-memset:%s' % fld,
+                                          '->%s is assigned and the whole object is then zeroed by memset() (%s) in the same block: the value is lost' % (fld, ev['loc'].rsplit('/', 1)[-1]))
+    run.stats['memset_zero_sites'] = n
+    return n
